@@ -48,6 +48,7 @@ var (
 	vbNewBroadcaster      = pushtx.NewBroadcaster
 	vbParseBroadcastError = pushtx.ParseBroadcastError
 	vbErrStopped          = pushtx.ErrBroadcasterStopped
+	vbUseLogger           = pushtx.UseLogger
 )
 
 // No access to the broadcaster's channels from here.
